@@ -1017,7 +1017,8 @@ impl World {
             match d.anonymize() {
                 Ok(a) => {
                     let bytes = a.save();
-                    let reload = match Automerge::load(&bytes) {
+                    // (reload with the document's own text encoding: widths are read in that encoding)
+                    let reload = match Automerge::load_with_options(&bytes, automerge::LoadOptions::new().text_encoding(a.text_encoding())) {
                         Ok(b) => {
                             let mut h1 = a.get_heads();
                             let mut h2 = b.get_heads();
